@@ -97,6 +97,11 @@ package kvql
 //@   requires f != nil
 //@   assigns nothing
 //@   ensures[C09] out: err == nil && result == ite(f.isFloat, AFlt(f.fmin), AInt(f.imin))
+//@ func (f *aggrMinFunc) Clone() (c AggrFunction) implements AggrFunction.Clone
+//@   props C09
+//@   requires f != nil
+//@   assigns nothing
+//@   ensures[C09] init: is(c, *aggrMinFunc) && fresh(c) && !as(c, *aggrMinFunc).first && !as(c, *aggrMinFunc).isFloat
 //@ func (f *aggrMaxFunc) Update(kv KVPair, args []Expression, ctx *ExecuteCtx) (err error) implements AggrFunction.Update
 //@   props C09 C05
 //@   requires f != nil && len(args) >= 1 && args[0] != nil
@@ -110,6 +115,54 @@ package kvql
 //@   requires f != nil
 //@   assigns nothing
 //@   ensures[C09] out: err == nil && result == ite(f.isFloat, AFlt(f.fmax), AInt(f.imax))
+//
+//@ func (f *aggrMaxFunc) Clone() (c AggrFunction) implements AggrFunction.Clone
+//@   props C09
+//@   requires f != nil
+//@   assigns nothing
+//@   ensures[C09] init: is(c, *aggrMaxFunc) && fresh(c) && !as(c, *aggrMaxFunc).first && !as(c, *aggrMaxFunc).isFloat
+//
+// ---------------------------------------------------------------- group_concat
+// group_concat(x, sep): the renderings (toString) of x over the group's pairs in scan order, joined
+// by sep: Update appends one rendering, Complete joins (strings.Join: T-STD, joinN), Clone starts
+// empty with the same separator. joined(items ++ [s], sep) = joined(items, sep) ++ sep ++ s.
+//@ func (f *aggrGroupConcatFunc) Update(kv KVPair, args []Expression, ctx *ExecuteCtx) (err error) implements AggrFunction.Update
+//@   props C09 C05
+//@   requires f != nil && len(args) >= 1 && args[0] != nil
+//@   assigns f.items, elems(f.items), ctx.Hit, mapof(ctx.FieldCaches)
+//@   ensures[C09] ok: (err == nil) == arg0ok(args, kv)
+//@   ensures[C09] step: err == nil ==> len(f.items) == old(len(f.items)) + 1 && val(f.items[len(f.items) - 1]) == val(toString(argv0(args, kv))) && (forall j Int :: 0 <= j && j < old(len(f.items)) ==> f.items[j] == old(f.items[j]))
+//@   ensures[C09] fold: err == nil ==> joined(f.items, val(f.sep)) == ite(old(len(f.items)) == 0, val(toString(argv0(args, kv))), cat(cat(old(joined(f.items, val(f.sep))), val(f.sep)), val(toString(argv0(args, kv)))))
+//@   ensures[C09] keep: err != nil ==> f.items == old(f.items)
+//@ func (f *aggrGroupConcatFunc) Complete() (result any, err error)
+//@   props C09
+//@   requires f != nil
+//@   assigns nothing
+//@   ensures[C09] out: err == nil && isstr(result) && textOf(result) == joined(f.items, val(f.sep))
+//@ func (f *aggrGroupConcatFunc) Clone() (c AggrFunction) implements AggrFunction.Clone
+//@   props C09
+//@   requires f != nil
+//@   assigns nothing
+//@   ensures[C09] init: is(c, *aggrGroupConcatFunc) && fresh(c) && len(as(c, *aggrGroupConcatFunc).items) == 0 && as(c, *aggrGroupConcatFunc).sep == f.sep && as(c, *aggrGroupConcatFunc).args == f.args
+//
+// ---------------------------------------------------------------- json_arrayagg
+// json_arrayagg(x): the values of x over the group's pairs in scan order, as a JSON array: Update
+// appends the value (numbers and Booleans as they are, bytes and everything else as text), Clone
+// starts empty; Complete is json.Marshal of the items (external, T-STD: not modelled).
+//@ func (f *aggrJsonArrayAggFunc) Update(kv KVPair, args []Expression, ctx *ExecuteCtx) (err error) implements AggrFunction.Update
+//@   props C09 C05
+//@   requires f != nil && len(args) >= 1 && args[0] != nil
+//@   assigns f.items, elems(f.items), ctx.Hit, mapof(ctx.FieldCaches)
+//@   ensures[C09] ok: (err == nil) == arg0ok(args, kv)
+//@   ensures[C09] step: err == nil ==> len(f.items) == old(len(f.items)) + 1 && (forall j Int :: 0 <= j && j < old(len(f.items)) ==> f.items[j] == old(f.items[j]))
+//@   ensures[C09] item: err == nil && (isInt(argv0(args, kv)) || isFlt(argv0(args, kv)) || isbool(argv0(args, kv))) ==> f.items[len(f.items) - 1] == argv0(args, kv)
+//@   ensures[C09] text: err == nil && isbytes(argv0(args, kv)) ==> isstr(f.items[len(f.items) - 1]) && textOf(f.items[len(f.items) - 1]) == textOf(argv0(args, kv))
+//@   ensures[C09] keep: err != nil ==> f.items == old(f.items)
+//@ func (f *aggrJsonArrayAggFunc) Clone() (c AggrFunction) implements AggrFunction.Clone
+//@   props C09
+//@   requires f != nil
+//@   assigns nothing
+//@   ensures[C09] init: is(c, *aggrJsonArrayAggFunc) && fresh(c) && len(as(c, *aggrJsonArrayAggFunc).items) == 0 && as(c, *aggrJsonArrayAggFunc).args == f.args
 //
 // ---------------------------------------------------------------- limit half of AggregatePlan (C08)
 //
